@@ -499,10 +499,24 @@ func ToGeneralizedType(t Type) *GeneralizedType {
 }
 
 func GetUnderlyingType(t Type) Type {
+	return getUnderlyingType(t, nil)
+}
+
+// visiting holds the named types that are being unwrapped, so that a reference
+// cycle between aliases (which is reported elsewhere) does not recurse forever.
+func getUnderlyingType(t Type, visiting map[*NamedType]bool) Type {
 	underlyingTypeFromTypeDefinition := func(t TypeDefinition) Type {
 		switch t := t.(type) {
 		case *NamedType:
-			return GetUnderlyingType(t.Type)
+			if visiting[t] {
+				return nil
+			}
+			if visiting == nil {
+				visiting = make(map[*NamedType]bool)
+			}
+			visiting[t] = true
+			defer delete(visiting, t)
+			return getUnderlyingType(t.Type, visiting)
 		default:
 			return nil
 		}
@@ -519,7 +533,7 @@ func GetUnderlyingType(t Type) Type {
 		switch t.Dimensionality.(type) {
 		case nil:
 			if t.Cases.IsSingle() {
-				return GetUnderlyingType(t.Cases[0].Type)
+				return getUnderlyingType(t.Cases[0].Type, visiting)
 			}
 		}
 	}
